@@ -39,7 +39,7 @@ func raceMain(args []string) {
 				fl := strings.Fields(o)
 				if fl[0] == "N" {
 					results[i] = append(results[i], guard(func() string {
-						lang := bip39.Language(atoi(fl[2]))
+						lang := lang(fl[2])
 						s, err := bip39.NewMnemonic(atoi(fl[1]), lang)
 						if err != nil {
 							return "err " + errClass(err)
